@@ -30,6 +30,9 @@ Definition leaf_size_guard (l : leaf) : bool :=
   | LSchm _ _ st _ _ => lenN st =? 4
   (* readBoxSize is what the fields need: holds of an exact decoded senc whose data is written back *)
   | LSenc _ _ raw rs np => rs =? 16 + (if np then lenN raw else 0)
+  | LUuidTfrf _ _ cnt es => cnt <=? lenN es
+  | LUuidSenc _ _ raw rs np => rs =? 16 + (if np then lenN raw else 0)
+  | LUuidUnk u _ => lenN u =? 16
   | _ => true
   end.
 
@@ -102,6 +105,9 @@ Proof.
   rewrite !lenN_app, !lenN_be_enc, (lenN_flat_map_const _ _ _ (lenN_wr_subsample _)), IH.
   unfold subs_w. destruct (v =? 1); lia.
 Qed.
+
+Lemma lenN_wr_pairw w p : lenN (wr_pairw w p) = 2 * N.of_nat w.
+Proof. unfold wr_pairw. rewrite lenN_app, !lenN_be_enc. lia. Qed.
 
 Lemma lenN_unity : lenN unity_matrix = 36.
 Proof. reflexivity. Qed.
@@ -219,4 +225,11 @@ Proof.
   - (* hvcC *) cbn [size_leaf chunk nth hd]. lens. rewrite lenN_wr_narrs. lia.
   - (* subs *) cbn [size_leaf]. lens. rewrite lenN_wr_subs_entries. lia.
   - (* esds *) apply (esds_body_len version flags nb esid fl dep url ocr dcd children unknown canon) in Eb. cbn [size_leaf]. lens. lia.
+  - (* uuid tfxd *) cbn [size_leaf]. unfold uuid_w. destruct (version =? 0); cbn [negb]; lens; change (lenN uuid_tfxd) with 16; lia.
+  - (* uuid tfrf *) destruct (lenN entries <? count) eqn:Ec; [discriminate|]. injection Eb as <-. apply N.leb_le in G.
+    cbn [size_leaf]. unfold uuid_w. destruct (version =? 0); cbn [negb]; lens;
+      rewrite ?(lenN_flat_map_const _ _ _ (lenN_wr_pairw _)); rewrite lenN_firstn by assumption; lia.
+  - (* uuid piff senc *) destruct (negb notParsed && has flags 2 && (0 <? count)); [discriminate|]. injection Eb as <-.
+    apply N.eqb_eq in G. destruct notParsed; lens; change (lenN uuid_piff) with 16; lia.
+  - (* uuid unknown *) apply N.eqb_eq in G. lens. lia.
 Qed.
